@@ -140,7 +140,7 @@ func drawPSPlan(prof psProfile) *psPlan {
 	if simrt.Chance(prof.audNum, prof.audDen) {
 		p.auditor = 1 + simrt.Draw(2)
 	}
-	nsub := simrt.DrawRange(1, prof.maxSubs)
+	nsub := simrt.DrawRange(1, prof.maxSubs+2*(simrt.Scale()-1))
 	if p.auditor == 0 && nsub == 1 && simrt.Chance(1, 2) {
 		nsub = 2
 	}
